@@ -436,11 +436,18 @@ class ModesMon(Monitor):
     def __init__(self, prop="C14"):
         self.prop = prop
         self.last_fit = None
+        self.fits = []  # every mode fit made during the current training stage
+        self.stage = None  # what the training stage of this iteration returned, and the fits it was built from
         self.stages = 0
         self.k_ge2 = 0
 
+    def after_train(self, inc, weights, ms):
+        self.stage = dict(ms=ms, fits=self.fits)
+        self.fits = []
+
     def on_modes_fit(self, inc, how, u, weights, labels, ms):
         self.last_fit = dict(how=how, labels=None if labels is None else np.asarray(labels).copy(), ms=ms, n=len(u), u=np.asarray(u).copy())
+        self.fits.append(self.last_fit)
         # "that mode was fitted from the particles of that same cluster": any location estimate computed from a
         # cluster's points (median, weighted mean, EM fixed point) lies inside their bounding box - exact necessary condition
         u = np.asarray(u)
@@ -502,39 +509,62 @@ class ModesMon(Monitor):
         dof = np.asarray(ms.degrees_of_freedom, dtype=float)
         if not (np.all(np.isfinite(dof)) and np.all(dof > 0)):
             w.violation(self.prop, "mode.dof", f"degrees of freedom {dof!r} reach the kernel", **keys)
-        lf = self.last_fit
-        if lf is None or lf["ms"] is not ms:
-            w.violation(self.prop, "mode.stale", "mode statistics given to the kernel are not the ones fitted in this iteration's training stage", **keys)
-        elif lf["labels"] is not None:
-            uniq = np.unique(lf["labels"])
-            if len(uniq) != K:
-                w.violation(self.prop, "mode.count", f"K={K} modes but {len(uniq)} labels in the training set", **keys)
-            missing = [int(x) for x in np.unique(a) if x not in set(uniq.tolist())]
-            if missing:
-                w.probe("modes.label_missing_from_training_set")
-                w.violation(self.prop, "label.no_training_points", f"active particles carry label(s) {missing} for which no training point was available (modes fitted for labels {uniq.tolist()})", **keys)
-            # the same model must label the training pool and the active particles: an active particle that is one of the
-            # training points (resampling copies pool rows) carries the label that point had when the modes were fitted
-            tl = {}
-            for row, lab in zip(lf["u"], lf["labels"]):
-                tl.setdefault(row.tobytes(), int(lab))
-            au = np.asarray(kw["u"])
-            n_match = n_bad = 0
-            for row, lab in zip(au, a):
-                t = tl.get(np.ascontiguousarray(row).tobytes())
-                if t is not None:
-                    n_match += 1
-                    n_bad += int(t != int(lab))
-            if n_match:
-                w.probe("modes.active_particles_matched_to_training_points", n_match)
-            if n_bad:
-                w.violation(self.prop, "label.other_clustering", f"{n_bad} of {n_match} active particles that are training points carry a different label than the one they had when the mode statistics were fitted "
-                            f"(labels come from a different model / normalisation than the statistics)", **keys)
-            for j, lab in enumerate(uniq.tolist()):
-                if lab != j and np.any(a == lab):
-                    w.probe("modes.rank_ne_label")
-                    w.violation(self.prop, "label.rank_mismatch", f"label {lab} is served by mode index {lab} but its statistics were stored at rank {j} (labels in training set {uniq.tolist()})", **keys)
-                    break
+        st = self.stage
+        if st is None or st["ms"] is not ms:
+            w.violation(self.prop, "mode.stale", "mode statistics given to the kernel are not the ones the training stage of this iteration returned", **keys)
+            return
+        self.stage = None
+        if not st["fits"]:
+            w.violation(self.prop, "mode.not_fitted", "the kernel runs with mode statistics that no fit of this iteration's training stage produced (placeholder or left-over statistics)", **keys)
+            return
+        pf = [f for f in st["fits"] if f["labels"] is not None]
+        if not pf:
+            # no clustering in this stage: one global mode (labels are all 0, checked through the range above) fitted from the pool
+            gu = st["fits"][-1]["u"]
+            lo, hi = gu.min(axis=0), gu.max(axis=0)
+            tol = 1e-9 * (1.0 + np.abs(hi - lo))
+            if np.any(ms.means[0] < lo - tol) or np.any(ms.means[0] > hi + tol):
+                w.violation(self.prop, "label.served_by_other_mode", f"the single mode given to the kernel has its location {np.round(ms.means[0], 4).tolist()} outside the bounding box of the training pool", **keys)
+            return
+        lf = pf[-1]
+        labels_t, u_t = lf["labels"], lf["u"]
+        # (a) the same model must label the training pool and the active particles: an active particle that is one of the training points
+        #     (resampling copies pool rows) carries the label that point had when the modes were fitted
+        tl = {}
+        for row, lab in zip(u_t, labels_t):
+            tl.setdefault(row.tobytes(), int(lab))
+        au = np.asarray(kw["u"])
+        n_match = n_bad = 0
+        for row, lab in zip(au, a):
+            t = tl.get(np.ascontiguousarray(row).tobytes())
+            if t is not None:
+                n_match += 1
+                n_bad += int(t != int(lab))
+        if n_match:
+            w.probe("modes.active_particles_matched_to_training_points", n_match)
+        if n_bad:
+            w.violation(self.prop, "label.other_clustering", f"{n_bad} of {n_match} active particles that are training points carry a different label than the one they had when the mode statistics were fitted "
+                        f"(labels come from a different model / normalisation than the statistics)", **keys)
+        # (b) the mode a label selects was fitted from the training points carrying that label: any location estimate computed from a cluster's points
+        #     lies inside their bounding box (exact necessary condition, independent of how the implementation numbers its modes).  A label without any
+        #     training point can only be served by a fallback (e.g. the global fit), whose location lies inside the bounding box of the whole pool.
+        glo, ghi = u_t.min(axis=0), u_t.max(axis=0)
+        for lab in sorted(set(int(x) for x in np.unique(a))):
+            if lab < 0 or lab >= K:
+                continue  # reported as label.out_of_range above
+            pts = u_t[labels_t == lab]
+            if len(pts):
+                lo, hi = pts.min(axis=0), pts.max(axis=0)
+                what = f"the {len(pts)} training points carrying that label"
+            else:
+                lo, hi = glo, ghi
+                what = "the training pool (no training point carries that label: only a fallback fitted from the pool can serve it)"
+                w.probe("modes.active_label_without_training_point")
+            tol = 1e-9 * (1.0 + np.abs(hi - lo))
+            if np.any(ms.means[lab] < lo - tol) or np.any(ms.means[lab] > hi + tol):
+                w.violation(self.prop, "label.served_by_other_mode", f"active particles carry label {lab}; the mode selected by that label has its location {np.round(ms.means[lab], 4).tolist()} outside the bounding box "
+                            f"[{np.round(lo, 4).tolist()}, {np.round(hi, 4).tolist()}] of {what} (labels in the training set {np.unique(labels_t).tolist()}, K={K})", **keys)
+                break
 
 
 # ------------------------------------------------------------------------------------ C11
